@@ -123,6 +123,10 @@ impl ClientModel {
                     return self.refuse(a, o, fpb, fpa, &evs);
                 }
                 no_events("request_connection")?;
+                // a second connect while one is still unanswered: emitting and refusing are both fine
+                if self.out.values().any(|t| matches!(t, Tx::Connect(_))) && o.packets.is_empty() && fpb == fpa {
+                    return Ok(());
+                }
                 let c = commands(outs, "connect");
                 if !o.ok() || c.len() != 1 || outs.len() != 1 {
                     return v("connect/not-emitted", format!("request_connection while disconnected must emit exactly one connect command; got {:?} (err {:?})", outs, o.err));
@@ -150,6 +154,10 @@ impl ClientModel {
                     return self.refuse(a, o, fpb, fpa, &evs);
                 }
                 no_events("request")?;
+                // "connected and idle": with a createStream still unanswered both behaviours are fine
+                if self.out.values().any(|t| matches!(t, Tx::CreatePlay(_) | Tx::CreatePublish(_, _))) && o.packets.is_empty() && fpb == fpa {
+                    return Ok(());
+                }
                 let c = commands(outs, "createStream");
                 if !o.ok() || c.len() != 1 || outs.len() != 1 {
                     return v("request/createStream-not-emitted", format!("{:?} while connected must emit exactly one createStream; got {:?} (err {:?})", a, outs, o.err));
